@@ -54,15 +54,40 @@ def chainOk : List Row → Bool
   | a :: b :: rest => if inOrder a b then chainOk (b :: rest) else false
   | _ => true
 
-/-- the label is the category (head of the key) -/
-def labelsOk : List Row → Bool
+/-- the label is the one the key's category carries -/
+def labelsOk (lab : List Nat → Nat) : List Row → Bool
   | [] => true
-  | r :: rs => if r.2.1 = r.2.2.headD 99 then labelsOk rs else false
+  | r :: rs => if r.2.1 = lab r.2.2 then labelsOk lab rs else false
 
-def tableOk (t : Lookup) (spec : List Rank → Bool → List Nat) (sigs : List Sig) : Bool :=
+def tableOk (t : Lookup) (spec : List Rank → Bool → List Nat) (lab : List Nat → Nat) (sigs : List Sig) : Bool :=
   match rowsOf t spec sigs with
   | none => false
-  | some rows => if labelsOk rows then chainOk (msort rows) else false
+  | some rows => if labelsOk lab rows then chainOk (msort rows) else false
+
+/-- none of these signatures has an entry -/
+def absentOk (t : Lookup) : List Sig → Bool
+  | [] => true
+  | s :: ss =>
+    match hashRanks s.1 with
+    | none => false
+    | some h => if (t.get? (h, s.2)).isNone then absentOk t ss else false
+
+
+theorem absentOk_sound (t : Lookup) : ∀ (sigs : List Sig), absentOk t sigs = true →
+    ∀ s ∈ sigs, ∃ k, hashRanks s.1 = some k ∧ t.get? (k, s.2) = none
+  | [], _, s, hs => by cases hs
+  | s0 :: ss, h, s, hs => by
+    unfold absentOk at h
+    cases hk : hashRanks s0.1 with
+    | none => simp [hk] at h
+    | some k =>
+      simp only [hk] at h
+      by_cases hn : (t.get? (k, s0.2)).isNone = true
+      · simp only [hn, if_true] at h
+        rcases List.mem_cons.1 hs with rfl | hs'
+        · exact ⟨k, hk, by simpa using hn⟩
+        · exact absentOk_sound t ss h s hs'
+      · simp [hn] at h
 
 end PK.TableCheck
 
@@ -239,15 +264,16 @@ theorem pairwise_total {R : Row → Row → Prop} : ∀ (l : List Row), l.Pairwi
       · exact Or.inr (Or.inr (h1 x hx'))
       · exact pairwise_total l h2 x hx' y hy'
 
-theorem labelsOk_mem : ∀ (rows : List Row), labelsOk rows = true → ∀ r ∈ rows, r.2.1 = r.2.2.headD 99
+theorem labelsOk_mem (lab : List Nat → Nat) : ∀ (rows : List Row), labelsOk lab rows = true →
+    ∀ r ∈ rows, r.2.1 = lab r.2.2
   | [], _, r, hr => by cases hr
   | r0 :: rs, h, r, hr => by
     unfold labelsOk at h
-    by_cases h0 : r0.2.1 = r0.2.2.headD 99
+    by_cases h0 : r0.2.1 = lab r0.2.2
     · simp only [h0, if_true] at h
       rcases List.mem_cons.1 hr with rfl | hr'
       · exact h0
-      · exact labelsOk_mem rs h r hr'
+      · exact labelsOk_mem lab rs h r hr'
     · rw [if_neg h0] at h; cases h
 
 /-- what two rows in order say about each other -/
@@ -280,11 +306,11 @@ theorem order_facts (x y : Row) (h : x = y ∨ inOrder x y = true ∨ inOrder y 
   · exact (key y x h).2
 
 /-- **from the Boolean check to any two signatures of the family** -/
-theorem tableOk_sound (t : Lookup) (spec : List Rank → Bool → List Nat) (sigs : List Sig)
-    (hok : tableOk t spec sigs = true) (s1 : Sig) (h1 : s1 ∈ sigs) (s2 : Sig) (h2 : s2 ∈ sigs) :
+theorem tableOk_sound (t : Lookup) (spec : List Rank → Bool → List Nat) (lab : List Nat → Nat)
+    (sigs : List Sig) (hok : tableOk t spec lab sigs = true) (s1 : Sig) (h1 : s1 ∈ sigs) (s2 : Sig) (h2 : s2 ∈ sigs) :
     ∃ k1 k2 e1 e2, hashRanks s1.1 = some k1 ∧ hashRanks s2.1 = some k2 ∧
       t.get? (k1, s1.2) = some e1 ∧ t.get? (k2, s2.2) = some e2 ∧
-      e1.label = (spec s1.1 s1.2).headD 99 ∧
+      e1.label = lab (spec s1.1 s1.2) ∧
       (e1.index < e2.index ↔ lexLt (spec s1.1 s1.2) (spec s2.1 s2.2) = true) ∧
       (e1.index = e2.index ↔ spec s1.1 s1.2 = spec s2.1 s2.2) := by
   unfold tableOk at hok
@@ -292,14 +318,14 @@ theorem tableOk_sound (t : Lookup) (spec : List Rank → Bool → List Nat) (sig
   | none => simp [hrows] at hok
   | some rows =>
     simp only [hrows] at hok
-    by_cases hl : labelsOk rows = true
+    by_cases hl : labelsOk lab rows = true
     · simp only [hl, if_true] at hok
       obtain ⟨r1, hr1, hm1⟩ := rowsOf_some t spec sigs rows hrows s1 h1
       obtain ⟨r2, hr2, hm2⟩ := rowsOf_some t spec sigs rows hrows s2 h2
       have hp := chainOk_pairwise _ hok
       have htot := pairwise_total _ hp r1 ((mem_msort r1 rows).2 hm1) r2 ((mem_msort r2 rows).2 hm2)
       have hf := order_facts r1 r2 htot
-      have hlab := labelsOk_mem rows hl r1 hm1
+      have hlab := labelsOk_mem lab rows hl r1 hm1
       unfold rowOf at hr1 hr2
       cases hk1 : hashRanks s1.1 with
       | none => simp [hk1] at hr1
